@@ -98,8 +98,11 @@ for d in demos:
 old = {}
 if os.path.exists(os.path.join(dst, "meta.json")):
     old = json.load(open(os.path.join(dst, "meta.json")))
-if a.skip_confirm and "confirmed" in old:
-    res["confirmed"] = old["confirmed"]
+if a.skip_confirm and old.get("what_was_run", {}).get("confirmed"):
+    res["confirmed"] = old["what_was_run"]["confirmed"]
+# keep earlier check results for properties not re-run now
+for k, v in old.get("what_was_run", {}).get("checks", {}).items():
+    res["checks"].setdefault(k, v)
 out_meta = {"property": a.prop, "summary": meta.get("summary"), "needs_to_manifest": meta.get("needs_to_manifest"),
             "what_was_run": res}
 json.dump(out_meta, open(os.path.join(dst, "meta.json"), "w"), indent=1)
